@@ -777,6 +777,13 @@ def effective(node):
         if node.get("subtype", 0) == 0:
             return node["value"]
         return node.get("parsed")
+    if node["kind"] == "a":
+        # Host names (DNS) and service names (RFC 6335) are case-insensitive and config.c
+        # deliberately compares them with strcasecmp: a case-only edit is not a change of
+        # the pair's effective value (DESIGN 11.4).  The stored text itself is still
+        # compared byte for byte by the model check on the dump.
+        v = node["value"]
+        return [lkey(x) if isinstance(x, str) else x for x in v] if isinstance(v, (list, tuple)) else v
     return node["value"]
 
 
